@@ -26,6 +26,9 @@ type Case struct {
 	ByteKeys [][]byte `json:"byte_keys,omitempty"`
 	// pq: ascending inputs
 	Inputs [][]KV `json:"inputs,omitempty"`
+	// skip-storm: that many inserts into short-lived maps (node heights are random inside the library: rare heights
+	// only turn up after millions of inserts)
+	Storm int `json:"storm,omitempty"`
 }
 
 // diffCmp is consistent but returns magnitudes (a-b scaled), not just -1/0/1: the contract only fixes the sign.
@@ -58,6 +61,9 @@ func (revCmp) Compare(a, b int) int {
 
 func Gen() *rapid.Generator[Case] {
 	return rapid.Custom(func(t *rapid.T) Case {
+		if rapid.IntRange(0, 59).Draw(t, "storm") == 0 {
+			return Case{Kind: "skip-storm", Storm: 200000}
+		}
 		kind := rapid.SampledFrom([]string{"skip-int", "skip-int-rev", "skip-int-diff", "skip-str", "skip-bytes", "skip-bytes-memcmp", "pq", "pq"}).Draw(t, "kind")
 		c := Case{Kind: kind}
 		maxN := 60
@@ -154,6 +160,8 @@ func Prop(c Case, x *h.Ctx) *h.Violation {
 		return checkSkip(x, c.ByteKeys, skiplist.Comparator[[]byte](skiplist.BytesComparator{}), probeSet(c.ByteKeys), func(a []byte) string { return fmt.Sprintf("%x", a) })
 	case "pq":
 		return checkPQ(x, c.Inputs)
+	case "skip-storm":
+		return checkStorm(x, c.Storm)
 	}
 	panic("bad kind " + c.Kind)
 }
@@ -437,5 +445,40 @@ func checkPQ(x *h.Ctx, inputs [][]KV) *h.Violation {
 	}
 	x.SetNonTrivial(dryWithThree && dups)
 	_ = bytes.Compare
+	return nil
+}
+
+// checkStorm inserts n ascending keys into maps of 1000 entries each and checks size and order of every map. The keys
+// are unremarkable; the point is the number of inserts, i.e. of random node heights drawn inside the library.
+func checkStorm(x *h.Ctx, n int) *h.Violation {
+	x.SetNonTrivial(n >= 100000)
+	const per = 1000
+	for done := 0; done < n; done += per {
+		m := skiplist.NewSkipListMap[int, int](skiplist.OrderedComparator[int]{})
+		for i := 0; i < per; i++ {
+			m.Insert((i*7919)%per, i)
+		}
+		if m.Size() != per {
+			return h.V("skiplist/storm-size", "after %d inserts of distinct keys Size() = %d", per, m.Size())
+		}
+		it, err := m.Iterator()
+		if err != nil {
+			return h.V("skiplist/storm-iterator", "Iterator: %v", err)
+		}
+		prev := -1
+		for cnt := 0; ; cnt++ {
+			k, _, err := it.Next()
+			if err != nil {
+				if cnt != per {
+					return h.V("skiplist/storm-count", "full iteration yields %d of %d entries (%v)", cnt, per, err)
+				}
+				break
+			}
+			if k <= prev {
+				return h.V("skiplist/storm-order", "iteration not ascending: %d after %d", k, prev)
+			}
+			prev = k
+		}
+	}
 	return nil
 }
